@@ -2,7 +2,7 @@ import json, os, sys, time
 import vlib, mcdrive
 
 ASSUME = [
-    'goroutine timing: an entry is applied with GOMAXPROCS(1) and the number of goroutines is compared before and after: an entry that starts a goroutine (work that continues after Apply returned) is reported; everything else in the state machine runs on the applying goroutine',
+    'goroutine timing: the workers run with GOMAXPROCS=1 and the number of goroutines is compared before and after: an entry that starts a goroutine (work that continues after Apply returned) is reported; everything else in the state machine runs on the applying goroutine',
     'receiving node: every transition is also executed the way the node executes it whose HTTP handler received the POSTs (ThrottleUntil called ten times per client line with the wall clock 1 ms behind the previous message of the session: the one IRCServer mutator the handlers call outside the log); outputs and state must equal the node that only applied the log, the throttle counter itself is masked',
     'every transition is first executed twice without any deviation on fresh instances in the same process: a different result is reported as a violation (process-global state left behind by an earlier execution influences the result); such findings are re-executed in five fresh processes',
     'map iteration order is owned through the overlaid runtime (tools/rtpatch.py): every range over a map with >=2 elements on the harness goroutine is a choice point; for maps of <=8 elements the alternatives are all rotations the runtime can produce (8<<B start positions, capped at 16 for larger maps)',
@@ -24,18 +24,19 @@ def build_glue():
 
 def run(tier):
     t0 = time.time()
-    budget = float(os.environ.get('VERIF_BUDGET_S', '420' if tier == 'quick' else '3600'))
+    budget = float(os.environ.get('VERIF_BUDGET_S', '600' if tier == 'quick' else '3600'))
     deadline = int(t0 + budget)
     rtbin = mcdrive.build_mc(rt=True)
     mcbin = mcdrive.build_mc()
     sd = vlib.scratch_dir()
-    env = {'VERIF_DEADLINE': str(deadline), 'VERIF_ALPHA': 'full'}
+    # GOMAXPROCS=1: a goroutine that an entry starts cannot finish before it is counted (goroutine check)
+    env = {'VERIF_DEADLINE': str(deadline), 'VERIF_ALPHA': 'full', 'GOMAXPROCS': '1'}
     if tier == 'thorough':
         env['VERIF_C01_PAIRS'] = '1'
     # level 1, process A
     ra = vlib.run_workers(rtbin, 'TestVerifC01', vlib.NCPU, env=env)
     # level 1, process B: different environment (cwd, GOMAXPROCS, env noise); only digests are used
-    envb = dict(env); envb.update({'GOMAXPROCS': '1', 'VERIF_NOISE': 'replica-b', 'TZ': 'Pacific/Kiritimati', 'VERIF_C01_PAIRS': '0'})
+    envb = dict(env); envb.update({'GOMAXPROCS': '3', 'VERIF_NOISE': 'replica-b', 'TZ': 'Pacific/Kiritimati', 'VERIF_C01_PAIRS': '0'})
     os.makedirs(os.path.join(sd, 'replica-b'), exist_ok=True)
     rb = vlib.run_workers(rtbin, 'TestVerifC01', vlib.NCPU, env=envb, cwd=os.path.join(sd, 'replica-b'))
     viols = []
